@@ -2108,6 +2108,10 @@ class Client:
                 return MQTTErrorCode.MQTT_ERR_NO_CONN
             rc = self._packet_read()
             if rc > 0:
+                if self._sock is None:
+                    # a write made while handling the packet already failed, closed the
+                    # socket and reported it through on_disconnect
+                    return rc
                 return self._loop_rc_handle(rc)
             elif rc == MQTTErrorCode.MQTT_ERR_AGAIN:
                 return MQTTErrorCode.MQTT_ERR_SUCCESS
